@@ -140,4 +140,32 @@ theorem head_allow_notdropped (cs : Chains) (f : Nat) (r : Rule) (rs : List Rule
   · rw [runRules_cons_accept cs f r rs p hm ha]; exact Or.inl rfl
   · rw [runRules_cons_ret cs f r rs p hm ha]; exact Or.inr ⟨p, rfl⟩
 
+theorem and_two_pow_eq_iff (m b : Nat) : (m &&& 2 ^ b == 2 ^ b) = m.testBit b := by
+  cases h : m.testBit b with
+  | true =>
+    have : m &&& 2 ^ b = 2 ^ b := by
+      apply Nat.eq_of_testBit_eq
+      intro i
+      rw [Nat.testBit_and, Nat.testBit_two_pow]
+      by_cases e : b = i
+      · subst e; simp [h]
+      · simp [e]
+    simp [this]
+  | false =>
+    have : m &&& 2 ^ b = 0 := by
+      apply Nat.eq_of_testBit_eq
+      intro i
+      rw [Nat.testBit_and, Nat.testBit_two_pow, Nat.zero_testBit]
+      by_cases e : b = i
+      · subst e; simp [h]
+      · simp [e]
+    have hne : (0 : Nat) ≠ 2 ^ b := Nat.ne_of_lt (Nat.two_pow_pos b)
+    simp [this, hne]
+
+theorem testBit_or_two_pow (m b : Nat) : (m ||| 2 ^ b).testBit b = true := by
+  rw [Nat.testBit_or, Nat.testBit_two_pow]; simp
+
+theorem testBit_or_keep (m z b : Nat) (h : m.testBit b = true) : (m ||| z).testBit b = true := by
+  rw [Nat.testBit_or, h]; rfl
+
 end CalicoVerif.C40
